@@ -57,6 +57,11 @@ def r1(run):
                    "and lands in the task's (= the spawn's) context", reason="wrong-context")
             lits, args = a.topic_lits, a.topic_args
             run.ob(HELPER + "|topic", lits == ["."] and len(args) == 2 and q.last_field(args[0]) == "topic", a.call.sp, "topic = <task.topic>.<suffix>", reason="generator-topic")
+            srcs = F.content_sources(a.setters.get("hash"), run.facts)
+            from_param = any("content" in fmt(strip(x)) for c in srcs for x in c.arg_exprs()[1:])
+            run.ob(HELPER + "|content", bool(srcs) and from_param, a.call.sp,
+                   "a frame emitted with content references the CAS entry of exactly that content (hash = cas_insert(content)): %s" % [c.fn.split("::")[-1] for c in srcs],
+                   reason="generator-content-lost")
         elif a.has_suffix(".spawn.error"):
             sid = a.meta.get("source_id") if a.meta else None
             ok = sid is not None and q.last_field(F.json_src(sid)) == "id" and a.meta is not None and "reason" in a.meta
@@ -157,6 +162,69 @@ def r3(run):
         run.ob(MOD + "::try_start_task|no-error-on-success", not [a for a in errs if a.call.bb in reach_o], c.sp, "no `.spawn.error` on the success edge", reason="spurious-spawn-error")
 
 
+def r3b(run):
+    """handle_spawn_event: a name already running is refused; otherwise the expression is read from the spawn frame's content,
+    the task is recorded under (context, name) and started before Ok is returned."""
+    hb = None
+    for b in run.facts.bodies_under(MOD + "::handle_spawn_event"):
+        if b.is_coroutine:
+            hb = b
+    if hb is None:
+        run.missing(MOD + "::handle_spawn_event|body", "handle_spawn_event not found")
+        return
+    run.touch(hb)
+    fn = MOD + "::handle_spawn_event"
+    ck = [c for c in hb.calls() if c.bb in hb.live_blocks() and c.fn.endswith("::contains_key") and "HashMap" in c.fn]
+    ins = [c for c in hb.calls() if c.bb in hb.live_blocks() and c.fn.endswith("::insert") and "HashMap" in c.fn and "GeneratorTask" in c.fnx]
+    sps = q.live_calls(hb, MOD + "::spawn")
+    run.exact("already-running tests in handle_spawn_event", len(ck), 1, hb.sp)
+    run.exact("task registrations in handle_spawn_event", len(ins), 1, hb.sp)
+    run.exact("spawn calls in handle_spawn_event", len(sps), 1, hb.sp)
+    if not (ck and ins and sps):
+        return
+    c0 = ck[0]
+    te, fe = [], []
+    for bb, si in hb.switches():
+        sc = strip(si["cond"])
+        if si["kind"] == "bool" and sc[0] == "call" and q.same_call(sc[1], c0):
+            te += q.edge_triples(hb, bb, lambda m: m is True)
+            fe += q.edge_triples(hb, bb, lambda m: m is False)
+    reach_t = hb.reachable_blocks([t for (_, t, _) in te]) if te else set()
+    rets_t = [strip(e) for (rb, e, raw) in hb.return_defs() if rb in reach_t and not q.reaches(hb, 0, rb, removed_edges=te) and rb != 0]
+    run.ob(fn + "|already-running|refused", bool(te) and ins[0].bb not in reach_t and sps[0].bb not in reach_t, c0.sp,
+           "when a generator of that (context, name) is already recorded nothing is registered or started (the caller turns the Err into .spawn.error)", reason="running-generator-replaced")
+    run.ob(fn + "|new-name|accepted", bool(fe) and q.dominated(hb, ins[0].bb, via_edges=fe) and q.dominated(hb, sps[0].bb, via_edges=fe), c0.sp,
+           "registration and start happen exactly on the `not yet running` edge", reason="new-generator-refused")
+    key_ok = all(any(q.last_field(y) == "context_id" for y in walk(c.arg(1))) and any(y[0] in ("arg", "field") and "topic" in fmt(y) for y in walk(c.arg(1))) for c in (c0, ins[0]))
+    run.ob(fn + "|key", key_ok, c0.sp, "the test and the registration use the (frame.context_id, name) key", reason="running-generator-replaced")
+    oks = [rb for (rb, e, raw) in hb.return_defs() if strip(e)[0] == "agg" and strip(e)[1].get("variant") == "Ok"]
+    run.ob(fn + "|ok-means-started", bool(oks) and all(q.dominated(hb, rb, via_blocks=[ins[0].bb]) and q.dominated(hb, rb, via_blocks=[sps[0].bb]) for rb in oks), sps[0].sp,
+           "every Ok return passes the registration and the start of the task", reason="accepted-spawn-not-started")
+    # the expression is the content of the spawn frame
+    rts = [c for c in hb.calls() if c.bb in hb.live_blocks() and c.fn.endswith("::read_to_string")]
+    cas = [c for c in hb.calls() if c.bb in hb.live_blocks() and c.fn in ("xs::store::Store::cas_reader", "xs::store::Store::cas_read", "xs::store::Store::cas_reader_sync")]
+    ok = False
+    for r in rts:
+        from_hash = any(q.last_field(y) == "hash" for c in cas for y in walk(c.arg(1)))
+        err = q.call_result_edges(hb, r, ok=False)
+        dst = q.root_local(hb, r.args[1]) if len(r.args) > 1 else None
+        used = False
+        for bi, si2, st in hb.stmt_points():
+            if st["k"] == "assign" and st["rv"].get("agg") == "adt" and "GeneratorTask" in st["rv"].get("adt", "") and bi in hb.live_blocks():
+                for op in st["rv"].get("ops", []):
+                    e = hb.operand_expr(op)
+                    for y in walk(e):
+                        if y[0] == "call" and y[2] and y[1].fn.endswith("Clone::clone"):
+                            if q.root_local(hb, y[1].args[0]) == dst:
+                                used = True
+                    if q.root_local(hb, op) == dst:
+                        used = True
+                used = used and q.dominated(hb, bi, via_blocks=[r.bb])
+        ok = ok or (from_hash and bool(err) and used)
+    run.ob(fn + "|expression-from-content", ok, rts[0].sp if rts else hb.sp,
+           "the task's expression is what was read (errors propagated) from the CAS content named by the spawn frame's hash, before the task is built", reason="generator-expression-lost")
+
+
 def r4(run):
     sb = None
     for b in run.facts.bodies_under(MOD + "::spawn"):
@@ -175,7 +243,9 @@ def r4(run):
         st = dict(zip(c06.read_options_slots(run), info["state"]))
         lid = info["setters"].get("last_id")
         from_start = lid is not None and q.last_field(lid[0]) == "id" and any(y[0] == "call" and y[1].fn == HELPER and "start" in q.const_strs(y[2][2]) for y in walk(lid[0]))
-        run.ob(MOD + "::spawn|duplex|after-start", st.get("last_id") == "Set" and from_start and st.get("follow") == "Set" and st.get("tail") != "Set", c.sp,
+        fv = strip(info["setters"]["follow"][0]) if "follow" in info["setters"] and info["setters"]["follow"][0] is not None else None
+        follows = fv is not None and fv[0] == "agg" and fv[1].get("variant") in ("On", "WithHeartbeat")
+        run.ob(MOD + "::spawn|duplex|after-start", st.get("last_id") == "Set" and from_start and st.get("follow") == "Set" and follows and st.get("tail") != "Set", c.sp,
                "the duplex feed follows the stream strictly after the `start` frame's id (nothing appended while running is missed or replayed): %s" % st, reason="duplex-start-position")
         # only when duplex is enabled
         edges = []
@@ -237,6 +307,8 @@ RULES = [
     ("R-C18-1", "generator frames are appended only by the stamping helper (source_id = spawn id, spawn's context) or the spawn-error arm", r1),
     ("R-C18-2", "start is appended before the worker exists; in the worker nothing follows stop and every exit passes stop", r2),
     ("R-C18-3", "a failing spawn yields exactly one .spawn.error on every failure path and none on success", r3),
+    ("R-C18-7", "handle_spawn_event: a running name is refused, a new one is recorded under (context, name) and started before Ok; the expression is the spawn frame's content", r3b),
     ("R-C18-4", "duplex: subscription strictly after the start frame, only if enabled, filtered on <name>.send", r4),
     ("R-C18-5", "the .stop arm re-spawns the stored task; .spawn frames are dispatched to try_start_task", r5),
+    ("R-C18-6", "the generator dispatcher keeps serving: following subscription, threshold ends replay, the live loop ends only with the stream (shared with R-C17-6)", lambda run: __import__("rules.C17", fromlist=["x"]).rule_dispatcher_shape(run, ("xs::generators::serve",))),
 ]
